@@ -855,10 +855,12 @@ Definition comment_ok (ls : list line) : Prop :=
   blank (last ls []) = false
   /\ Forall (fun l => starts_close (trim_left l) = false) (removelast ls).
 
-Theorem emit_norm_idempotent_lemma : forall k ls, comment_ok ls ->
+Theorem emit_norm_idempotent_lemma : forall k ls,
+  blank (last ls []) = false ->
+  Forall (fun l => starts_close (trim_left l) = false) (removelast ls) ->
   emit_norm k (emit_norm k ls) = emit_norm k ls.
 Proof.
-  intros k ls [OK1 OK2].
+  intros k ls OK1 OK2.
   destruct ls as [|x xs]; [reflexivity|].
   destruct (trim_last_shape (x :: xs)) as [a [l [E1 E2]]]; [discriminate|].
   rewrite E1 in OK1, OK2. rewrite last_last in OK1. rewrite removelast_last in OK2.
@@ -896,6 +898,6 @@ Theorem emit_comment_idempotent_lemma : forall normalise k ls,
   emit_comment normalise k (emit_comment normalise k ls) = emit_comment normalise k ls.
 Proof.
   intros [|] k ls H; cbn [emit_comment].
-  - apply emit_norm_idempotent_lemma. apply H. reflexivity.
+  - destruct (H eq_refl). apply emit_norm_idempotent_lemma; assumption.
   - apply emit_verbatim_idempotent_lemma.
 Qed.
